@@ -238,6 +238,10 @@ class EdgeLandmark(BaseEdge):
             Whether the two edges are equal
 
         """
+        # An edge of another type (which may not even have an offset) is never equal
+        if not type(self) is type(other):  # noqa
+            return False
+
         if not type(self.offset) is type(other.offset):  # noqa
             return False
 
